@@ -16,6 +16,7 @@ from __future__ import annotations
 
 import itertools
 import json
+import shutil
 import warnings
 from typing import Any, Dict, List, Optional, Tuple
 
@@ -482,6 +483,8 @@ def unit_fn(unit: Tuple[int, List[Tuple[Tuple[str, ...], int]], bool]) -> Part:
             for sh in shapes:
                 part.add("shapes", sh)
             part.add("gnr_configs", ngnr)
+    # (pool workers do not run atexit handlers: remove this process' scratch directory now; it is re-created on demand)
+    shutil.rmtree(emit.scratch_dir(), ignore_errors=True)
     return part
 
 
